@@ -17,7 +17,7 @@ const (
 
 var c06Names = []string{"resetsFlags", "metaCompare", "tsPositive", "voidClears", "pushChecksType", "setSliceReplaces",
 	"u32delReleases", "u32delChecksType", "incFailClean", "noEmptyLive", "arekAllFalse", "countMissingOk",
-	"setErrSingle", "saveReleasesImmediate", "wireExpNe0"}
+	"setErrSingle", "fltCondDirect", "saveReleasesImmediate", "wireExpNe0"}
 
 func init() {
 	Register("C06", Extractor{Import: "Hv.Props.C06", Type: "Hv.C06.Facts", Run: func(fs *Facts) {
@@ -522,6 +522,64 @@ func c06All(gw, sw, tr *File) map[string]c06Fact {
 			}
 		}
 		out["setErrSingle"] = fact
+	}
+
+	// ---- fltCondDirect: the ordering conditions of IncrementFloat32/64 ------------------------------
+	// yes: `if !(contentFloat > condition.Value) { fail }` (the stated comparison decides);
+	// no:  `if contentFloat <= condition.Value { fail }` (the complement decides: never fails on NaN)
+	{
+		fact := unk(sw)
+		direct := map[string]string{"RelationalOperatorGreaterThan": ">", "RelationalOperatorGreaterThanOrEqual": ">=",
+			"RelationalOperatorLessThan": "<", "RelationalOperatorLessThanOrEqual": "<="}
+		compl := map[string]string{"RelationalOperatorGreaterThan": "<=", "RelationalOperatorGreaterThanOrEqual": "<",
+			"RelationalOperatorLessThan": ">=", "RelationalOperatorLessThanOrEqual": ">"}
+		yes, no, other := 0, 0, 0
+		var at ast.Node
+		for _, fn := range []string{"IncrementFloat32", "IncrementFloat64"} {
+			fd := sw.Func("swamp", fn)
+			if fd == nil {
+				other++
+				continue
+			}
+			ast.Inspect(fd.Body, func(n ast.Node) bool {
+				cc, ok := n.(*ast.CaseClause)
+				if !ok || len(cc.List) != 1 {
+					return true
+				}
+				op := sw.Str(cc.List[0])
+				if _, ok := direct[op]; !ok {
+					return true
+				}
+				if len(cc.Body) != 1 {
+					other++
+					return true
+				}
+				is, ok := cc.Body[0].(*ast.IfStmt)
+				if !ok {
+					other++
+					return true
+				}
+				switch sw.Str(is.Cond) {
+				case "!(contentFloat " + direct[op] + " condition.Value)":
+					yes++
+				case "contentFloat " + compl[op] + " condition.Value":
+					no++
+					if at == nil {
+						at = is
+					}
+				default:
+					other++
+				}
+				return true
+			})
+		}
+		switch {
+		case other == 0 && yes == 8 && no == 0:
+			fact = c06Fact{Yes, sw.Path}
+		case other == 0 && no > 0 && yes+no == 8:
+			fact = c06Fact{No, c06At(sw, at)}
+		}
+		out["fltCondDirect"] = fact
 	}
 
 	// ---- wireExpNe0: treasureToKeyValuePair shows ExpiredAt when `!= 0` (yes) / `> 0` (no) ---------------
